@@ -44,6 +44,9 @@ def impl(c):
     out["fresh"] = all(x is not d and x is not e and x.degrees is not d.degrees and x.degrees is not e.degrees for x in (a, s, ng, sc))
     out["assoc"] = L((d + e) + f) == L(d + (e + f)); out["comm"] = L(d + e) == L(e + d); out["zero"] = L(d + zero(d.graph)) == L(d); out["inv"] = L(d + (-d)) == [0] * n
     out["dist"] = L(c["k"] * (d + e)) == L(c["k"] * d + c["k"] * e)
+    # augmented assignment: `x += e` / `x -= e` rebind the name to the sum; the object x referred to (still referred to by d) must not move
+    acc = d; acc += e; acc2 = d; acc2 -= e
+    out["aug"] = [L(acc), L(acc2), acc is not d and acc2 is not d]
     # mutate a result: operands must not move (no shared storage)
     a.lending_move(G["names"][0]); a.chip_transfer(G["names"][0], G["names"][-1], 3)
     out["pure"] = before == snap()
@@ -73,6 +76,7 @@ def judge(c, r, mo):
     for k, want in (("add", add), ("sub", sub), ("neg", neg), ("scale", sc)):
         if o[k] != want: out.append({"what": "%s: %s, model %s (D=%s E=%s k=%s)" % (k, o[k], want, c["D"], c["E"], c["k"])})
         if o[k + "_t"] != sum(want): out.append({"what": "%s: total degree %s, should be %d" % (k, o[k + "_t"], sum(want))})
+    if o.get("aug") != [add, sub, True]: out.append({"what": "D += E / D -= E gave %s (fresh objects: %s), the sum and difference are %s / %s" % (o.get("aug", [None, None])[:2], o.get("aug", [0, 0, None])[2], add, sub)})
     for k in ("fresh", "assoc", "comm", "zero", "inv", "dist", "pure", "ne_other_type"):
         if not o[k]: out.append({"what": "law '%s' failed (operands modified / shared storage / group law)" % k})
     ch = "err" if mo[3][0] == "err" else [int(x) for x in mo[3][1:]]
@@ -89,6 +93,7 @@ def oracle(c, r):
     o = r["ok"]; D, E, k = c["D"], c["E"], c["k"]; why = []
     if o["add"] != [a + b for a, b in zip(D, E)] or o["sub"] != [a - b for a, b in zip(D, E)] or o["neg"] != [-a for a in D] or o["scale"] != [k * a for a in D]: why.append("vertex-wise arithmetic wrong")
     if o["add_t"] != sum(D) + sum(E) or o["sub_t"] != sum(D) - sum(E) or o["neg_t"] != -sum(D) or o["scale_t"] != k * sum(D): why.append("total degree not additive")
+    if o.get("aug") != [[a + b for a, b in zip(D, E)], [a - b for a, b in zip(D, E)], True]: why.append("augmented assignment modified or aliased its left operand: %s" % (o.get("aug"),))
     for x in ("fresh", "assoc", "comm", "zero", "inv", "dist", "pure"):
         if not o[x]: why.append(x)
     eq = c["kind"] == "same" or (c["G"]["names"] == c["G2"]["names"] and c["G"]["edges"] == c["G2"]["edges"] and c["D"] == c["E2"])
